@@ -17,13 +17,13 @@ Fixpoint gt (t : ntree) : gtree :=
   | NPre _ d _ a => GN d GLeaf (gt a)
   | NSuf _ d _ a => GN d (gt a) GLeaf
   | NBin _ d _ l r => GN d (gt l) (gt r)
-  | NGroup _ _ a => GN D_Group GLeaf (gt a)
+  | NGroup b _ _ a => GN (bdef b) GLeaf (gt a)
   end.
 
 Lemma gtree_of_denotes ns : forall t p fuel, denotes ns p t -> size t < fuel ->
   gtree_of fuel ns (Some (nid t)) = Some (gt t).
 Proof.
-  induction t as [i d k|i d k a IH|i d k a IH|i d k l IHl r IHr|i k a IH]; intros p fuel D Hf;
+  induction t as [i d k|i d k a IH|i d k a IH|i d k l IHl r IHr|b i k a IH]; intros p fuel D Hf;
     (destruct fuel as [|fuel]; [lia|]); simpl in D, Hf; destruct D as (n & Hn & A);
     cbn [gtree_of nid gt]; rewrite Hn.
   - destruct A as (_ & A2 & _ & _ & A5 & A6 & _). rewrite A5, A6, A2.
@@ -49,7 +49,7 @@ Fixpoint rg (ctx : bool) (t : rtree) : gtree :=
   | RPre d _ a => GN d GLeaf (rg false a)
   | RSuf d _ a => GN d (rg false a) GLeaf
   | RBin d _ l r => GN d (rg false l) (rg (definition_eqb d D_Access) r)
-  | RGroup _ a => GN D_Group GLeaf (rg false a)
+  | RGroup b _ a => GN (bdef b) GLeaf (rg false a)
   end.
 
 (* the stored definitions of an index-carrying tree are the ones its position dictates *)
@@ -59,12 +59,12 @@ Fixpoint wfd (ctx : bool) (t : ntree) : Prop :=
   | NPre _ _ _ a => wfd false a
   | NSuf _ _ _ a => wfd false a
   | NBin _ d _ l r => wfd false l /\ wfd (definition_eqb d D_Access) r
-  | NGroup _ _ a => wfd false a
+  | NGroup _ _ _ a => wfd false a
   end.
 
 Lemma gt_rg : forall t ctx, wfd ctx t -> gt t = rg ctx (erase t).
 Proof.
-  induction t as [i d k|i d k a IH|i d k a IH|i d k l IHl r IHr|i k a IH]; intros ctx H; simpl in *.
+  induction t as [i d k|i d k a IH|i d k a IH|i d k l IHl r IHr|b i k a IH]; intros ctx H; simpl in *.
   - rewrite <- H. reflexivity.
   - rewrite (IH _ H). reflexivity.
   - rewrite (IH _ H). reflexivity.
@@ -80,7 +80,7 @@ Definition fwfd (f : frame) : Prop :=
   match f with
   | FBin _ _ _ l => wfd false l
   | FPre _ d _ => definition_eqb d D_Access = false
-  | FGroup _ _ => True
+  | FGroup _ _ _ => True
   end.
 
 Definition acc_wfd (fs : list frame) (acc : option ntree) : Prop :=
@@ -97,10 +97,10 @@ Definition item_sane (it : item) : Prop :=
 
 Lemma plug_wfd f r t c : fwfd f -> wfd (top_is_access (f :: r)) t -> wfd c (plug f t).
 Proof.
-  destruct f as [i d k l|i d k|i k]; simpl; intros Hf Ht.
+  destruct f as [i d k l|i d k|b i k]; simpl; intros Hf Ht.
   - split; assumption.
   - rewrite Hf in Ht. exact Ht.
-  - exact Ht.
+  - destruct b; exact Ht.
 Qed.
 
 Lemma pop_wfd d : inside d 30%N = false -> forall fs t fs' t',
@@ -113,26 +113,27 @@ Proof.
     + injection H as <- <-. split; [exact HF|].
       assert (Ha : top_is_access (f :: r) = false).
       { cbn [top_is_access]. destruct (definition_eqb (frame_def f) D_Access) eqn:Ea; [|reflexivity]. exfalso.
-        destruct f as [i d0 k l|i d0 k|i k]; cbn [frame_def] in Ea.
+        destruct f as [i d0 k l|i d0 k|b0 i k]; cbn [frame_def] in Ea.
         - assert (d0 = D_Access) by (unfold definition_eqb in Ea; apply N.eqb_eq in Ea;
             destruct d0; try reflexivity; vm_compute in Ea; discriminate Ea). subst d0.
           unfold stays_below in E. cbn [frame_def ref_rank] in E. rewrite Hd in E. discriminate E.
         - simpl in Hf. rewrite Hf in Ea. discriminate Ea.
-        - discriminate Ea. }
+        - destruct b0; discriminate Ea. }
       rewrite Ha in Ht. exact Ht.
     + eapply IH; [exact HF'| |exact H]. apply (plug_wfd f r t _ Hf Ht).
 Qed.
 
-Lemma close_group_wfd : forall fs t fs' t',
-  Forall fwfd fs -> wfd (top_is_access fs) t -> close_group fs t = Some (fs', t') ->
+Lemma close_group_wfd b : forall fs t fs' t',
+  Forall fwfd fs -> wfd (top_is_access fs) t -> close_group b fs t = Some (fs', t') ->
   Forall fwfd fs' /\ forall c, wfd c t'.
 Proof.
   induction fs as [|f r IH]; intros t fs' t' HF Ht H; [discriminate|].
   inversion HF as [|? ? Hf HF']; subst.
-  destruct f as [i d k l|i d k|i k]; cbn [close_group] in H.
+  destruct f as [i d k l|i d k|b0 i k]; cbn [close_group] in H.
   - eapply IH; [exact HF'| |exact H]. apply (plug_wfd (FBin i d k l) r t _ Hf Ht).
   - eapply IH; [exact HF'| |exact H]. apply (plug_wfd (FPre i d k) r t _ Hf Ht).
-  - injection H as <- <-. split; [exact HF'|]. intros c. exact Ht.
+  - destruct (bkind_eqb b0 b); [|discriminate H]. injection H as <- <-. split; [exact HF'|]. intros c.
+    simpl in Ht |- *. destruct b0; exact Ht.
 Qed.
 
 Lemma atom_store_wfd d fs k n : norm_atom d = d -> definition_eqb d D_Property = false ->
@@ -153,7 +154,7 @@ Proof.
   - inversion HI as [|? ? Hit HI']; subst. cbn [spine_run] in H.
     destruct (spine_step it n (fs, acc)) as [[fs2 acc2]|] eqn:Es; [|discriminate].
     apply (IH (next_index it n) fs2 acc2 fs' t' HI'); [| |exact H];
-      destruct it as [d k|d k|d k|d k|k|k]; destruct acc as [t|]; cbn [spine_step] in Es; try discriminate.
+      destruct it as [d k|d k|d k|d k|b k|b k]; destruct acc as [t|]; cbn [spine_step] in Es; try discriminate.
     + injection Es as <- <-. exact HF.
     + destruct (ref_rank d); [|discriminate]. injection Es as <- <-. constructor; [exact Hit|exact HF].
     + destruct (ref_rank d); [|discriminate]. destruct (pop d fs t) as [fs1 t1] eqn:Ep. injection Es as <- <-.
@@ -161,16 +162,16 @@ Proof.
     + destruct (ref_rank d); [|discriminate]. destruct (pop d fs t) as [fs1 t1] eqn:Ep. injection Es as <- <-.
       destruct (pop_wfd d Hit _ _ _ _ HF Ha Ep) as [H1 H2]. constructor; [exact H2|exact H1].
     + injection Es as <- <-. constructor; [exact I|exact HF].
-    + destruct (close_group fs t) as [[fs1 t1]|] eqn:Ec; [|discriminate]. injection Es as <- <-.
-      apply (close_group_wfd _ _ _ _ HF Ha Ec).
+    + destruct (close_group b fs t) as [[fs1 t1]|] eqn:Ec; [|discriminate]. injection Es as <- <-.
+      apply (close_group_wfd _ _ _ _ _ HF Ha Ec).
     + injection Es as <- <-. destruct Hit as [H1 H2]. apply atom_store_wfd; assumption.
     + destruct (ref_rank d); [|discriminate]. injection Es as <- <-. exact I.
     + destruct (ref_rank d); [|discriminate]. destruct (pop d fs t) as [fs1 t1] eqn:Ep. injection Es as <- <-.
       cbn [acc_wfd wfd]. apply (pop_wfd d Hit _ _ _ _ HF Ha Ep).
     + destruct (ref_rank d); [|discriminate]. destruct (pop d fs t) as [fs1 t1] eqn:Ep. injection Es as <- <-. exact I.
     + injection Es as <- <-. exact I.
-    + destruct (close_group fs t) as [[fs1 t1]|] eqn:Ec; [|discriminate]. injection Es as <- <-.
-      cbn [acc_wfd]. apply (close_group_wfd _ _ _ _ HF Ha Ec).
+    + destruct (close_group b fs t) as [[fs1 t1]|] eqn:Ec; [|discriminate]. injection Es as <- <-.
+      cbn [acc_wfd]. apply (close_group_wfd _ _ _ _ _ HF Ha Ec).
 Qed.
 
 Lemma close_wfd : forall fs t, Forall fwfd fs -> wfd (top_is_access fs) t -> wfd false (close fs t).
@@ -230,7 +231,7 @@ Qed.
 
 Lemma rg_shift a : forall t c, rg c (shift_rtree a t) = rg c t.
 Proof.
-  induction t as [d k|d k x IH|d k x IH|d k l IHl r IHr|k x IH]; intros c; simpl; rewrite ?IH, ?IHl, ?IHr; reflexivity.
+  induction t as [d k|d k x IH|d k x IH|d k l IHl r IHr|b k x IH]; intros c; simpl; rewrite ?IH, ?IHl, ?IHr; reflexivity.
 Qed.
 
 (* THE BRIDGE: where the reference is defined, the parse tree is its image *)
@@ -257,8 +258,8 @@ Definition untok_item (it : item) : item :=
   | IPrefix d _ => IPrefix d 0
   | ISuffix d _ => ISuffix d 0
   | IBinary d k => IBinary d (option_map (fun _ => 0) k)
-  | IOpen _ => IOpen 0
-  | IClose _ => IClose 0
+  | IOpen b _ => IOpen b 0
+  | IClose b _ => IClose b 0
   end.
 
 Fixpoint untok (t : rtree) : rtree :=
@@ -267,7 +268,7 @@ Fixpoint untok (t : rtree) : rtree :=
   | RPre d _ x => RPre d 0 (untok x)
   | RSuf d _ x => RSuf d 0 (untok x)
   | RBin d k l r => RBin d (option_map (fun _ => 0) k) (untok l) (untok r)
-  | RGroup _ x => RGroup 0 (untok x)
+  | RGroup b _ x => RGroup b 0 (untok x)
   end.
 
 Definition untok_res (x : rtree * list item) : rtree * list item := (untok (fst x), map untok_item (snd x)).
@@ -278,7 +279,7 @@ Proof.
   induction f as [|f IH]; intros q acc its; [reflexivity|].
   destruct acc as [lhs|]; cbn [option_map climb].
   - destruct its as [|it r]; [reflexivity|]. cbn [map].
-    destruct it as [d k|d k|d k|d k|k|k]; cbn [untok_item]; try reflexivity.
+    destruct it as [d k|d k|d k|d k|b k|b k]; cbn [untok_item]; try reflexivity.
     + destruct (inside d q); [|reflexivity].
       change (Some (RSuf d 0 (untok lhs))) with (option_map untok (Some (RSuf d k lhs))). apply IH.
     + destruct (inside d q); [|reflexivity]. destruct (ref_rank d) as [p|]; [|reflexivity].
@@ -287,7 +288,7 @@ Proof.
       change (Some (RBin d (option_map (fun _ => 0) k) (untok lhs) (untok rhs)))
         with (option_map untok (Some (RBin d k lhs rhs))). apply IH.
   - destruct its as [|it r]; [reflexivity|]. cbn [map].
-    destruct it as [d k|d k|d k|d k|k|k]; cbn [untok_item]; try reflexivity.
+    destruct it as [d k|d k|d k|d k|b k|b k]; cbn [untok_item]; try reflexivity.
     + change (Some (RAtom d 0)) with (option_map untok (Some (RAtom d k))). apply IH.
     + destruct (ref_rank d) as [p|]; [|reflexivity].
       pose proof (IH p None r) as E0. cbn [option_map] in E0. rewrite E0. clear E0.
@@ -295,13 +296,14 @@ Proof.
       change (Some (RPre d 0 (untok arg))) with (option_map untok (Some (RPre d k arg))). apply IH.
     + pose proof (IH INF None r) as E0. cbn [option_map] in E0. rewrite E0. clear E0.
       destruct (climb f INF None r) as [[inner [|c r']]|]; try reflexivity. cbn [option_map untok_res fst snd map].
-      destruct c as [d0 k0|d0 k0|d0 k0|d0 k0|k0|k0]; cbn [untok_item]; try reflexivity.
-      change (Some (RGroup 0 (untok inner))) with (option_map untok (Some (RGroup k inner))). apply IH.
+      destruct c as [d0 k0|d0 k0|d0 k0|d0 k0|b0 k0|b0 k0]; cbn [untok_item]; try reflexivity.
+      destruct (bkind_eqb b b0); [|reflexivity].
+      change (Some (RGroup b 0 (untok inner))) with (option_map untok (Some (RGroup b k inner))). apply IH.
 Qed.
 
 Lemma rg_untok : forall t c, rg c (untok t) = rg c t.
 Proof.
-  induction t as [d k|d k x IH|d k x IH|d k l IHl r IHr|k x IH]; intros c; simpl; rewrite ?IH, ?IHl, ?IHr; reflexivity.
+  induction t as [d k|d k x IH|d k x IH|d k l IHl r IHr|b k x IH]; intros c; simpl; rewrite ?IH, ?IHl, ?IHr; reflexivity.
 Qed.
 
 (* two token lists whose item lists agree up to token indices: the reference is defined on
@@ -367,7 +369,7 @@ Proof.
   induction l as [|t r IH]; intros i j prev sp; [reflexivity|]. cbn [items_of].
   destruct (ref_kind t) eqn:Ek; try reflexivity; try apply IH;
     (pose proof (IH (S i) (S j) (Some (ref_kind t)) false) as E; rewrite Ek in E;
-     destruct (items_of r (S i) _ false) as [a|]; destruct (items_of r (S j) _ false) as [b|];
+     destruct (items_of r (S i) _ false) as [ra|]; destruct (items_of r (S j) _ false) as [rb|];
      cbn [oitems option_map] in E |- *; try discriminate E; [|reflexivity];
      injection E as E; rewrite !map_app; cbn [map untok_item]; rewrite E; reflexivity).
 Qed.
@@ -394,8 +396,8 @@ Proof.
   - cbn [app items_of]. cbn [last_sig] in H. unfold sig_kind in H.
     destruct (ref_kind t) eqn:Ek; try reflexivity; try (apply IH; exact H);
       (pose proof (IH (S i) (Some (ref_kind t)) false) as E; rewrite Ek in E; specialize (E H);
-       destruct (items_of (r ++ TT_Whitespace :: post) (S i) _ false) as [a|];
-       destruct (items_of (r ++ post) (S i) _ false) as [b|];
+       destruct (items_of (r ++ TT_Whitespace :: post) (S i) _ false) as [ra|];
+       destruct (items_of (r ++ post) (S i) _ false) as [rb|];
        cbn [oitems option_map] in E |- *; try discriminate E; [|reflexivity];
        injection E as E; rewrite !map_app; cbn [map]; rewrite E; reflexivity).
 Qed.
@@ -429,45 +431,47 @@ Proof.
   destruct f' as [|f']; [lia|]. assert (Hle' : f <= f') by lia.
   destruct acc as [lhs|]; cbn [climb] in H |- *.
   - destruct its as [|it r]; [exact H|].
-    destruct it as [d k|d k|d k|d k|k|k]; try exact H.
+    destruct it as [d k|d k|d k|d k|b k|b k]; try exact H.
     + destruct (inside d q); [|exact H]. exact (IH _ _ _ _ H f' Hle').
     + destruct (inside d q); [|exact H]. destruct (ref_rank d) as [p|]; [|exact H].
       destruct (climb f p None r) as [[rhs r']|] eqn:E; [|discriminate H].
       rewrite (IH _ _ _ _ E f' Hle'). exact (IH _ _ _ _ H f' Hle').
   - destruct its as [|it r]; [exact H|].
-    destruct it as [d k|d k|d k|d k|k|k]; try exact H.
+    destruct it as [d k|d k|d k|d k|b k|b k]; try exact H.
     + exact (IH _ _ _ _ H f' Hle').
     + destruct (ref_rank d) as [p|]; [|exact H].
       destruct (climb f p None r) as [[arg r']|] eqn:E; [|discriminate H].
       rewrite (IH _ _ _ _ E f' Hle'). exact (IH _ _ _ _ H f' Hle').
     + destruct (climb f INF None r) as [[inner [|c r']]|] eqn:E; try discriminate H.
-      rewrite (IH _ _ _ _ E f' Hle'). destruct c; try discriminate H. exact (IH _ _ _ _ H f' Hle').
+      rewrite (IH _ _ _ _ E f' Hle'). destruct c; try discriminate H.
+      destruct (bkind_eqb b b0); [|discriminate H]. exact (IH _ _ _ _ H f' Hle').
 Qed.
 
 (* a climb does not look beyond the item it returns at: a closing bracket put behind the
    whole list is where a complete climb returns *)
-Lemma climb_app_close c x : forall f q acc its t r,
-  climb f q acc its = Some (t, r) -> climb f q acc (its ++ IClose c :: x) = Some (t, r ++ IClose c :: x).
+Lemma climb_app_close bc c x : forall f q acc its t r,
+  climb f q acc its = Some (t, r) -> climb f q acc (its ++ IClose bc c :: x) = Some (t, r ++ IClose bc c :: x).
 Proof.
   induction f as [|f IH]; intros q acc its t r H; [discriminate|].
   destruct acc as [lhs|]; cbn [climb] in H |- *.
   - destruct its as [|it r0]; [injection H as <- <-; reflexivity|]. cbn [app].
-    destruct it as [d k|d k|d k|d k|k|k]; try (injection H as <- <-; reflexivity).
+    destruct it as [d k|d k|d k|d k|b k|b k]; try (injection H as <- <-; reflexivity).
     + destruct (inside d q); [|injection H as <- <-; reflexivity]. exact (IH _ _ _ _ _ H).
     + destruct (inside d q); [|injection H as <- <-; reflexivity]. destruct (ref_rank d) as [p|]; [|discriminate H].
       destruct (climb f p None r0) as [[rhs r']|] eqn:E; [|discriminate H].
       rewrite (IH _ _ _ _ _ E). exact (IH _ _ _ _ _ H).
   - destruct its as [|it r0]; [discriminate H|]. cbn [app].
-    destruct it as [d k|d k|d k|d k|k|k]; try discriminate H.
+    destruct it as [d k|d k|d k|d k|b k|b k]; try discriminate H.
     + exact (IH _ _ _ _ _ H).
     + destruct (ref_rank d) as [p|]; [|discriminate H].
       destruct (climb f p None r0) as [[arg r']|] eqn:E; [|discriminate H].
       rewrite (IH _ _ _ _ _ E). exact (IH _ _ _ _ _ H).
     + destruct (climb f INF None r0) as [[inner [|c0 r']]|] eqn:E; try discriminate H.
-      rewrite (IH _ _ _ _ _ E). cbn [app]. destruct c0; try discriminate H. exact (IH _ _ _ _ _ H).
+      rewrite (IH _ _ _ _ _ E). cbn [app]. destruct c0; try discriminate H.
+      destruct (bkind_eqb b b0); [|discriminate H]. exact (IH _ _ _ _ _ H).
 Qed.
 
-Lemma items_of_after_open : forall l i sp, items_of l i (Some KOpen) sp = items_of l i None sp.
+Lemma items_of_after_open b : forall l i sp, items_of l i (Some (KOpen b)) sp = items_of l i None sp.
 Proof.
   induction l as [|t r IH]; intros i sp; [reflexivity|]. cbn [items_of].
   destruct (ref_kind t); try reflexivity; try apply IH; cbn [ends_value_k]; rewrite andb_false_r; reflexivity.
@@ -475,7 +479,7 @@ Qed.
 
 Lemma items_of_app_close : forall l i prev sp,
   items_of (l ++ [TT_EndGroup]) i prev sp
-  = option_map (fun its => its ++ [IClose (i + length l)]) (items_of l i prev sp).
+  = option_map (fun its => its ++ [IClose BRound (i + length l)]) (items_of l i prev sp).
 Proof.
   induction l as [|t r IH]; intros i prev sp.
   - cbn [app items_of ref_kind option_map length]. rewrite Nat.add_0_r.
@@ -489,7 +493,7 @@ Qed.
 (* the reference tree of `( toks )` is the group of the reference tree of `toks` *)
 Lemma pratt_wrapped toks T :
   pratt toks = Some T ->
-  pratt (TT_StartGroup :: toks ++ [TT_EndGroup]) = Some (RGroup 0 (shift_rtree 1 T)).
+  pratt (TT_StartGroup :: toks ++ [TT_EndGroup]) = Some (RGroup BRound 0 (shift_rtree 1 T)).
 Proof.
   intros Hpr. unfold pratt in *. destruct (items_of toks 0 None false) as [its|] eqn:Hits; [|discriminate].
   destruct (climb (4 * length its + 8) INF None its) as [[T1 [|c rc]]|] eqn:Hcl; try discriminate.
@@ -497,14 +501,14 @@ Proof.
   cbn [items_of ref_kind app]. rewrite items_of_app_close, items_of_after_open.
   pose proof (items_of_shift 1 toks 0 None false) as Es. cbn [plus] in Es. rewrite Es, Hits. clear Es. cbn [option_map app].
   set (its1 := map (shift_item 1) its).
-  set (F' := 4 * length (IOpen 0 :: its1 ++ [IClose (1 + length toks)]) + 8).
+  set (F' := 4 * length (IOpen BRound 0 :: its1 ++ [IClose BRound (1 + length toks)]) + 8).
   assert (HF' : F' = S (4 * length its + 15)).
   { unfold F', its1. cbn [length]. rewrite app_length, map_length. cbn [length]. lia. }
   rewrite HF'. cbn [climb].
   pose proof (climb_shift 1 (4 * length its + 8) INF None its) as Cs. cbn [option_map] in Cs.
   rewrite Hcl in Cs. cbn [option_map shift_res fst snd map] in Cs. fold its1 in Cs.
   pose proof (climb_fuel_mono _ _ _ _ _ Cs (4 * length its + 15) ltac:(lia)) as Cm.
-  rewrite (climb_app_close _ [] _ _ _ _ _ _ Cm). cbn [app].
+  rewrite (climb_app_close BRound _ [] _ _ _ _ _ _ Cm). cbn [app].
   destruct (4 * length its + 15) as [|f] eqn:Ef; [lia|]. reflexivity.
 Qed.
 
@@ -513,7 +517,7 @@ Theorem parens_whole_program (toks : list token_type) (T : rtree) :
   exists g g', parse_tree toks = Some g /\ parse_tree (TT_StartGroup :: toks ++ [TT_EndGroup]) = Some g' /\
                strip_groups g' = strip_groups g.
 Proof.
-  intros Hpr. exists (rg false T), (rg false (RGroup 0 (shift_rtree 1 T))).
+  intros Hpr. exists (rg false T), (rg false (RGroup BRound 0 (shift_rtree 1 T))).
   split; [apply parse_tree_pratt; exact Hpr|]. split; [apply parse_tree_pratt, pratt_wrapped; exact Hpr|].
   cbn [rg strip_groups]. rewrite rg_shift. reflexivity.
 Qed.
